@@ -53,7 +53,8 @@ def nontrivial(case: dict) -> bool:
 def execute(case: dict) -> dict:
     from emsarray.operations.triangulate import triangulate_dataset
     w = case["world"]
-    ds = W.build(w)
+    from .. import viafile
+    ds = viafile.hold_ds(w, W.build(w))
     W.bind(w, ds)
     rec = {"tid": case["tid"], "src": case["src"], "w": CD.tlc_world(w, ds), "events": []}
 
@@ -76,3 +77,7 @@ def _f16(rec: dict, failing: list) -> bool:
 
 
 SIGNATURES = {"F16": _f16}
+
+
+from .. import viafile as _viafile  # noqa: E402
+execute = _viafile.closing(execute)
